@@ -31,6 +31,9 @@ REQUIRED = ['position_units', 'inventory_units', 'position_cost', 'inventory_cos
             'currency', 'filter_currency_position', 'open_date', 'close_date', 'open_meta', 'currency_meta']
 EXTRA = ('only_inventory', 'empty_inventory', 'filter_currency_inventory', 'has_account',
          'meta', 'entry_meta', 'any_meta')
+# EXTRA functions that have theorems after all (bld-inv: Proofs/SrcInvFuncs.v, C12_source_only_inventory ..): they keep
+# their envlx_ names and position in the file, but fail closed like the REQUIRED ones
+EXTRA_TIED = ('only_inventory', 'empty_inventory', 'filter_currency_inventory')
 
 _last_report = {}
 
@@ -124,6 +127,8 @@ class EnvLedgerTranslator:
         extra, skipped = [], {}
         for name in EXTRA:
             if name not in reg:
+                if name in EXTRA_TIED:
+                    raise Untranslatable(f'query_env.{name} is no longer registered as a BQL function')
                 skipped[name] = 'not registered'
                 continue
             fn, bql = reg[name]
@@ -132,16 +137,20 @@ class EnvLedgerTranslator:
                 r2.names = list(refs.names)
                 term, defaults = LedgerFunc(fn, r2, prims=prims).translate()
                 refs.names = r2.names
-                defs.append(('envlx_' + name, f'beanquery.query_env.{name} (BQL {", ".join(bql)}); no theorem',
+                note = 'theorem in Proofs/SrcInvFuncs.v' if name in EXTRA_TIED else 'no theorem'
+                defs.append(('envlx_' + name, f'beanquery.query_env.{name} (BQL {", ".join(bql)}); {note}',
                              term, defaults))
                 extra.append(name)
             except Exception as e:  # noqa: BLE001  (no theorem depends on these: report, do not fail)
+                if name in EXTRA_TIED:
+                    raise
                 skipped[name] = str(e) or repr(e)
         _last_report.clear()
         _last_report.update({
             'src_envledger_tied_functions': [n for n, _, _ in spec],
             'src_envledger_context_parameters': ctxp,
-            'src_envledger_translated_without_theorem': extra,
+            'src_envledger_translated_without_theorem': [n for n in extra if n not in EXTRA_TIED],
+            'src_envledger_tied_in_SrcInvFuncs': [n for n in extra if n in EXTRA_TIED],
             'src_envledger_skipped': skipped,
         })
         return py2mini.render(defs, refs), info
